@@ -74,12 +74,12 @@ def run_scenario(sc, chooser=None, seed=0, max_steps=4000):
     sched.tag(sig.lock, "L")
     raises = set(sc["raises"])
     st = {"nextk": 0, "registered": [], "ran": {}, "errs": {}, "ran_when": {}, "go_returned": False,
-          "bool_seq": {}, "viol": []}
+          "bool_seq": {}, "viol": [], "then_ret": {}, "rm_calls": [], "go_calls": []}
     cbs = {}
     own = {}
 
-    def make_cb(k):
-        if k in cbs:
+    def make_cb(k, clone=False):
+        if k in cbs and not clone:
             return cbs[k]
 
         class CB(object):
@@ -99,16 +99,19 @@ def run_scenario(sc, chooser=None, seed=0, max_steps=4000):
             def __eq__(self, other):
                 if sched.me() is not None and not sched.abort:
                     sched.yield_point(("cmp", k))
-                return self is other
+                # equality is by value (as for the bound methods the library itself registers, which are a new object at
+                # every look-up): a clone of callback k equals callback k
+                return getattr(other, "_verif_tag", None) == k and type(other).__name__ == "CB"
 
             def __ne__(self, other):
                 return not self.__eq__(other)
 
             def __hash__(self):
-                return id(self)
+                return hash(("CB", k))
 
         cb = CB()
-        cbs[k] = cb
+        if not clone:
+            cbs[k] = cb
         return cb
 
     def make_err(k):
@@ -131,6 +134,7 @@ def run_scenario(sc, chooser=None, seed=0, max_steps=4000):
                         st["viol"].append("C20: thread %d came back from Signal.wait() although nothing had happened (flag false, no go())" % ti)
                 elif op == "go":
                     sched.note("call", ti, "go")
+                    st["go_calls"].append(len(sched.events))
                     sig.go()
                     sched.note("ret", ti, "go")
                     if not sc["never"]:
@@ -153,6 +157,7 @@ def run_scenario(sc, chooser=None, seed=0, max_steps=4000):
                     sched.note("call", ti, "then")
                     sig.then(make_cb(k), make_err(k))
                     sched.note("ret", ti, "then")
+                    st["then_ret"][k] = len(sched.events)
                 else:
                     if op == "remove_own":
                         k = mine[-1] if mine else 999
@@ -160,8 +165,12 @@ def run_scenario(sc, chooser=None, seed=0, max_steps=4000):
                         reg = st["registered"]
                         k = reg[(ti * 7 + len(reg)) % len(reg)] if reg else 999
                     sched.note("call", ti, "remove", k)
-                    sig.remove_then(make_cb(k))
+                    st["rm_calls"].append([k, len(sched.events), None])
+                    rec = st["rm_calls"][-1]
+                    # an equal, not identical, callable every other time (k + thread id decides, so that replays agree)
+                    sig.remove_then(make_cb(k, clone=((k + ti) % 2 == 0)) if k != 999 else make_cb(k))
                     sched.note("ret", ti, "remove")
+                    rec[2] = len(sched.events)
         return run
 
     for ti, ops in enumerate(sc["threads"]):
@@ -193,6 +202,20 @@ def run_scenario(sc, chooser=None, seed=0, max_steps=4000):
             e = st["errs"].get(k, 0)
             if e > 1 or (e == 1 and not (k in raises and st["ran"].get(k, 0) >= 1)):
                 viol.append("C02: error handler of callback %d ran %d times" % (k, e))
+    if outcome == "done" and go_now:
+        # every thread has returned and the flag is true.  A callback whose then() returned and that nobody tried to remove
+        # has run (by go(), or at once if it came late) ...
+        targeted = set(k for k, _, _ in st["rm_calls"])
+        for k in range(nk):
+            if k in st["then_ret"] and k not in targeted and st["ran"].get(k, 0) == 0:
+                viol.append("C02: callback %d was registered (then() returned), never removed, the signal is true and every call "
+                            "has returned, but the callback never ran" % k)
+    first_go = min(st["go_calls"]) if st["go_calls"] else None
+    for k, c0, c1 in st["rm_calls"]:
+        # ... and one removed (remove_then returned) before any go() was called, after its then() had returned, never runs
+        if k in st["then_ret"] and c1 is not None and st["then_ret"][k] <= c0 and (first_go is None or c1 <= first_go) \
+                and st["ran"].get(k, 0) > 0:
+            viol.append("C02: callback %d was removed (remove_then returned) before go() was called, but it ran" % k)
     if outcome == "stuck" and go_now:
         viol.append("C01: flag is true but threads %s never returned (lost wake-up / deadlock)" % stuck)
     if outcome == "stuck" and not go_now and st["go_returned"]:
